@@ -108,7 +108,7 @@ def make_profile(rng, world, knobs=None):
         if chance(rng, 0.4):
             mp["robust"] = True
     elif pi == "gaussian":
-        if chance(rng, k.get("winsorize_p", 0.04)):
+        if chance(rng, k.get("winsorize_p", 0.02)):
             mp["winsorize"] = True  # scipy's winsorize costs ~0.7 s per group and level: keep it rare
         if chance(rng, 0.3):
             mp["beta"] = choice(rng, [1, 2, 0.5, 3])
